@@ -122,7 +122,10 @@ type Sim struct {
 	AutoVisits  int
 	AutoSites   map[string]int
 	MutexWaits  int
+	MapLoops    int
+	mapN        map[string]int
 	driver      uint64
+	selectLoops map[string]string // identity prefix of a caller -> identity of the select loop (reducer) it started
 	lastG       string
 }
 
@@ -201,11 +204,67 @@ func (s *Sim) Auto(site string) {
 	s.park(g, "auto:"+site)
 }
 
+// MapOrder is the seam for the iteration order of Go maps in the instrumented copy
+// (simhook.MapKeys): a permutation that is a pure function of the run's salt, the goroutine, the
+// loop and how often that goroutine has been at it. Nil (sorted order) outside instrumented runs.
+func (s *Sim) MapOrder(n int, site string) []int {
+	if s.AutoDensity <= 0 || n < 2 {
+		return nil
+	}
+	id := goid()
+	s.mu.Lock()
+	who := "?"
+	if id == s.driver {
+		who = "driver"
+	} else if g := s.byGoid[id]; g != nil {
+		who = g.id
+	}
+	if s.mapN == nil {
+		s.mapN = map[string]int{}
+	}
+	key := who + "|" + site
+	s.mapN[key]++
+	k := s.mapN[key]
+	s.MapLoops++
+	s.mu.Unlock()
+	h := fnv.New64a()
+	var b [8]byte
+	for i := 0; i < 8; i++ {
+		b[i] = byte(s.AutoSalt >> (8 * i))
+	}
+	h.Write(b[:])
+	h.Write([]byte(key))
+	h.Write([]byte{byte(k), byte(k >> 8), byte(k >> 16)})
+	x := h.Sum64() | 1
+	next := func() uint64 { // splitmix64
+		x += 0x9e3779b97f4a7c15
+		z := x
+		z = (z ^ (z >> 30)) * 0xbf58476d1ce4e5b9
+		z = (z ^ (z >> 27)) * 0x94d049bb133111eb
+		return z ^ (z >> 31)
+	}
+	perm := make([]int, n)
+	for i := range perm {
+		perm[i] = i
+	}
+	for i := n - 1; i > 0; i-- {
+		j := int(next() % uint64(i+1))
+		perm[i], perm[j] = perm[j], perm[i]
+	}
+	return perm
+}
+
 // NoAuto exempts the calling goroutine from machine-inserted points (simhook.SelectLoop).
 func (s *Sim) NoAuto() {
 	s.mu.Lock()
 	if g := s.byGoid[goid()]; g != nil {
 		g.noAuto = true
+		if i := strings.LastIndex(g.id, "."); i > 0 {
+			if s.selectLoops == nil {
+				s.selectLoops = map[string]string{}
+			}
+			s.selectLoops[g.id[:i]] = g.id
+		}
 	}
 	s.mu.Unlock()
 }
@@ -491,9 +550,32 @@ func (s *Sim) enabled(now time.Time) (items []enabledItem, nextAt time.Time) {
 		delete(s.outstanding, k)
 		delete(s.toClear, k)
 	}
+	// the reducer of an AsyncMapReduce call selects over two channels; a Go select with two ready
+	// cases chooses at random, so a worker is released into its send only while the reducer of its
+	// call sits in that select: it has announced itself (simhook.SelectLoop), is alive and is not
+	// stopped anywhere (after a reduce, or inside the reduce function of the C20 scenario). Workers
+	// and reducer of one call are children of the caller: same identity prefix.
+	reducerReady := func(workerID string) bool {
+		i := strings.LastIndex(workerID, ".")
+		if i <= 0 {
+			return true
+		}
+		r, ok := s.selectLoops[workerID[:i]]
+		if !ok {
+			return false
+		}
+		if s.alive[r] <= 0 {
+			return false
+		}
+		_, stopped := s.parked[r]
+		return !stopped
+	}
 	for id, p := range s.parked {
 		if p.key != nil && SenderClasses[p.label] && s.outstanding[p.key] && !s.deadKey[p.key] {
 			s.Held++
+			continue
+		}
+		if (p.label == "amr.send.res" || p.label == "amr.send.err") && !reducerReady(id) {
 			continue
 		}
 		if p.cond != nil && !p.cond() {
